@@ -6,6 +6,7 @@ from aioftp import server as srv
 from .. import hgen
 from ..hbase import STUBS
 from .common import BASE_ASSUMPTIONS, ROOT, Cond, Spec
+from ..runner import innermost as U
 
 BODY = r'''
 class Line:
@@ -170,7 +171,7 @@ def build(tier):
         source=src,
         conds=conds,
         functions_encoded=[S.parse_command, C.command, C.login, C.parse_line, C.parse_response, S.dispatcher, S.user,
-                           S.pass_.__wrapped__, S.write_line, S.write_response, S.response_writer, aioftp.MemoryUserManager.authenticate],
+                           U(S.pass_), S.write_line, S.write_response, S.response_writer, aioftp.MemoryUserManager.authenticate],
         bounds={
             "password": f"free Unicode strings without CR/LF/trailing whitespace; |pw| <= {n_parse} (parse_command), <= {n_bytes} "
                         f"(through the real utf-8 codec), <= {n_cli} (client), <= {n_sess} (dispatcher sessions); each compared with the fixed password 'z'*len (implies every pair of equal length by transitivity)",
